@@ -25,13 +25,23 @@ const isFloat32 = 4
 const isFloat64 = 8
 
 func readNBytes(src *bufio.Reader, n int) []byte {
-	ret := make([]byte, n)
+	if n < 0 {
+		panic(fmt.Errorf("Invalid length: %d", n))
+	}
+	// Grow the result as bytes arrive instead of trusting the announced
+	// length, so that a bogus length cannot trigger a huge allocation.
+	const maxPrealloc = 4096
+	prealloc := n
+	if prealloc > maxPrealloc {
+		prealloc = maxPrealloc
+	}
+	ret := make([]byte, 0, prealloc)
 	for i := 0; i < n; i++ {
 		ch, e := src.ReadByte()
 		if e != nil {
 			panic(fmt.Errorf("Tried to Read %d Bytes.. But hit end of file", n))
 		}
-		ret[i] = ch
+		ret = append(ret, ch)
 	}
 	return ret
 }
@@ -222,7 +232,8 @@ func decodeStringToDataUrl(src *bufio.Reader, mimeType string) []byte {
 		panic(fmt.Errorf("Major type is: %d in decodeString", major))
 	}
 	length := decodeIntAdditionalType(src, minor)
-	l := int(length)
+	pbs := readNBytes(src, int(length))
+	l := len(pbs)
 	enc := base64.StdEncoding
 	lEnc := enc.EncodedLen(l)
 	result := make([]byte, len("\"data:;base64,\"")+len(mimeType)+lEnc)
@@ -233,7 +244,6 @@ func decodeStringToDataUrl(src *bufio.Reader, mimeType string) []byte {
 	dest = dest[u:]
 	u = copy(dest, ";base64,")
 	dest = dest[u:]
-	pbs := readNBytes(src, l)
 	enc.Encode(dest, pbs)
 	dest = dest[lEnc:]
 	dest[0] = '"'
